@@ -55,7 +55,7 @@ fixed("D29c", "C13", "daba35a", "UPDATE, VACUUM, UPDATE left the table unreadabl
 fixed("D31", "C10", "daba35a", "a cell replaced by a smaller one (an update with a shorter payload) moved the free space pointer; the next insert overwrote the head of the lowest cell of the page: keys read back as garbage", "O-structure", "findings/D31-update-with-a-smaller-payload-corrupts-the-next-insert.json")
 open_("D31e", "C10", "cells of mixed sizes up to ~650 bytes on 4 KiB pages with 5-6 minimum keys: an interior page that is not yet 'overflown' cannot take a divider as large as a leaf cell; the insert fails with 'Buffer overflow ... on a btreepage'", "O-map", "mixed_cell_sizes_with_large_cells", "findings/D31e-mixed-sizes-with-large-cells-interior-page-cannot-take-the-divider.json")
 fixed("V2", "C03", "e1d3627", "VACUUM panicked (storage/tuple.rs:297) when a transaction that had created a table with an index was still open or had been rolled back: the catalog row's newest version is invisible, it has no older one, and the version walk read a delta header from the padding at its end", "O-res", "findings/V2-vacuum-with-an-uncommitted-create-table-with-index-panics.json")
-open_("V1", "C13", "statements executed in a session after VACUUM aborted its transaction are visible to everyone at once; its ROLLBACK fails with 'Transaction not found'", "O-state", "statement_in_session_after_vacuum_aborted_it", "findings/V1-statements-after-vacuum-aborted-the-session-are-visible-at-once.json")
+fixed("V1", "C13", "1d11798", "statements executed in a session after VACUUM aborted its transaction were visible to everyone at once; its ROLLBACK failed with 'Transaction not found'", "O-state", "findings/V1-statements-after-vacuum-aborted-the-session-are-visible-at-once.json")
 
 # ---- open findings: DDL (C15) ----
 open_("X1", "C15", "CREATE UNIQUE INDEX inside an open transaction makes the table unusable for every other transaction ('Table not found N') until it commits", "O-res", "create_index_inside_session", "findings/X1-create-index-in-session-breaks-table-for-others.json")
